@@ -203,11 +203,11 @@ NOT_APPLICABLE.pop("C17", None)
 
 claim("C19", E1 + " + " + E2,
       "Protocol layer of save/reload only: save_pickle/load_pickle, OrbaxCheckpointer.save_model + restore_checkpoint and "
-      "StandardLogger._save_checkpoint are traced with the byte-level serializer replaced by a store-and-return stub: for 7 module "
+      "StandardLogger._save_checkpoint are traced with the byte-level serializer replaced by a store-and-return stub: for 8 module "
       "types every Variable leaf handed to the serializer comes back identical and the reloaded module gives the same outputs (jaxpr "
       "-> SMT, all parameter values). Buffers (5 classes, capacity 3): after <=4 symbolic add/sample/update operations the object "
       "rebuilt through __getstate__/__setstate__ has identical attributes (incl. the rebuilt Batch type) and evolves identically "
-      "under a further addition, a sample with the same generator draws and a priority update.",
+      "under a further addition, a sample with the same generator draws and a priority update (also when saved between sampling and the priority update); MultiTaskReplayBuffer: the same task and batch are drawn after a reload for concrete activation orders incl. colliding ids. The orbax stub carries the library's restore contract (untargeted restore returns string-keyed dicts), validated against real orbax at every run; modules with > 10 list entries and a restore template that differs in every variable are included.",
       "Byte-level pickle streams, orbax/tensorstore, the file system and device placement are OUTSIDE this technique and outside the "
       "claim (copy.deepcopy drives the reduce protocol for symbolic contents; replays use real pickle). " + E2NOTE,
       "jaxpr -> SMT for module state completeness; path-forking symbolic execution of the buffer reduce protocol",
